@@ -26,7 +26,8 @@ fn check_view<S: BaseFloat + std::fmt::Debug>(m: &Matrix4<S>, eye: Point3<S>, d:
     ensure_r!((r.det() - o).abs() <= tol, "det", "{}: det R = {:?}", who, r.det());
     // every clause is scale-free: tolerances are relative to |eye|, |d|, |up| (uplen is 1 in the exact tier)
     let e = *m * eye.to_homogeneous();
-    let te = tol * (o + eye.x.abs() + eye.y.abs() + eye.z.abs());
+    // (relative to |eye| itself: an eye a hair away from the origin is sent to the origin just as exactly)
+    let te = tol * (eye.x.abs() + eye.y.abs() + eye.z.abs());
     ensure_r!(e.x.abs() <= te && e.y.abs() <= te && e.z.abs() <= te && e.w == o, "eye-not-to-origin", "{}: M eye = {:?}", who, e);
     let rd = r.mulv(&[d.x, d.y, d.z]);
     let wz = if rh { -dlen } else { dlen };
@@ -90,8 +91,13 @@ fn all_entry_points<S: BaseFloat + std::fmt::Debug>(eye: Point3<S>, d: Vector3<S
     let dbl: Decomposed<Vector3<S>, Basis3<S>> = Transform::look_at_lh(eye, center, up);
     agree(&Matrix4::from(dbr).rm(), &to_rh.rm(), tol, "transform-decomposed-basis3", "Decomposed<_,Basis3>::look_at_rh")?;
     agree(&Matrix4::from(dbl).rm(), &to_lh.rm(), tol, "transform-decomposed-basis3", "Decomposed<_,Basis3>::look_at_lh")?;
+    // look_at is look_to of the difference, as a value and not merely up to rounding
+    let dd = center - eye;
+    ensure_r!(Matrix4::look_at_rh(eye, center, up) == Matrix4::look_to_rh(eye, dd, up), "look_at-is-look_to", "Matrix4::look_at_rh(eye, center, up) != look_to_rh(eye, center - eye, up)");
+    ensure_r!(Matrix4::look_at_lh(eye, center, up) == Matrix4::look_to_lh(eye, dd, up), "look_at-is-look_to", "Matrix4::look_at_lh(eye, center, up) != look_to_lh(eye, center - eye, up)");
+    ensure_r!(t4r == Matrix4::look_to_rh(eye, dd, up) && t4l == Matrix4::look_to_lh(eye, dd, up), "look_at-is-look_to", "Transform::look_at_* for Matrix4 != look_to_*(eye, center - eye, up)");
     let e0 = dqr.transform_point(eye);
-    let te = tol * (S::one() + eye.x.abs() + eye.y.abs() + eye.z.abs());
+    let te = tol * (eye.x.abs() + eye.y.abs() + eye.z.abs());
     ensure_r!(e0.x.abs() <= te && e0.y.abs() <= te && e0.z.abs() <= te, "decomposed-eye-not-to-origin", "Decomposed::look_at_rh sends the eye to {:?}", e0);
     let e0 = dbl.transform_point(eye);
     ensure_r!(e0.x.abs() <= te && e0.y.abs() <= te && e0.z.abs() <= te, "decomposed-eye-not-to-origin", "Decomposed::look_at_lh sends the eye to {:?}", e0);
@@ -164,6 +170,9 @@ fn f64_3d(d: &mut Draw) -> Outcome {
     d.note("angle(dir,up)", &ang);
     // the eye is looked at from a distance comparable to |d| in the look_at forms: keep eye + d meaningful
     let eye = if wide { Point3::new(eye.x * len.min(1e6), eye.y * len.min(1e6), eye.z * len.min(1e6)) } else { eye };
+    // or an eye next to the origin, whatever the viewing distance (its squared length underflows; it is still not the origin)
+    let eye = if d.chance(1, 5) { let k = d.f64_log(1e-300, 1e-100); Point3::new(eye.x * k, eye.y * k, eye.z * k) } else { eye };
+    d.note("eye (final)", &eye);
     let tol = 1e-11 / ang.sin();
     vcore::tryo!(all_entry_points(eye, dir, dir.magnitude(), up, up.magnitude(), tol));
     pass(if wide { "wide-scale" } else if ang.sin() < 0.3 { "up-near-dir" } else { "generic" }, true)
